@@ -56,15 +56,45 @@ def parse_rules_table(F, R):
         if l.get("k") != "index" or not H.is_local(H.strip(l["e"]), "rules"):
             continue
         tok = enum_index_cast(l["i"])
-        r = H.strip(x["r"])
-        cal = H.last(r.get("callee") or "")
-        if tok is None or cal not in ("new", "new_with_assoc"):
+        # the entry may be built by small helper constructors (`binary_operator_rule(prec)`), by ParseRule::new /
+        # new_with_assoc, by a struct literal, or by a struct literal with a `..base`: evaluated to its four fields
+        NEW = ("parser::rules::ParseRule::new", "parser::rules::ParseRule::new_with_assoc")
+
+        def entry(r, d=0):
+            r = H.strip(H.inline_helpers(F, r, skip=NEW)) if d == 0 else H.strip(r)
+            while r.get("k") == "block" and not r.get("stmts") and r.get("expr") is not None:
+                r = H.strip(r["expr"])
+            cal = r.get("callee") or ""
+            if r.get("k") == "call" and cal in NEW:
+                a = r["args"]
+                return {"prefix": opt_fn(a[0]), "infix": opt_fn(a[1]), "prec": H.last(H.ctor_of(H.strip(a[2])) or "?"),
+                        "assoc": default_assoc if cal.endswith("::new") else H.last(H.ctor_of(H.strip(a[3])) or "?")}
+            if r.get("k") == "struct" and H.last(r.get("res", {}).get("path") or r.get("path") or "") in ("ParseRule", "Self") and d < 3:
+                ent = entry(r["base"], d + 1) if r.get("base") is not None else {"prefix": "?", "infix": "?", "prec": "?", "assoc": "?"}
+                if ent is None:
+                    return None
+                for fd in r.get("fields", []):
+                    v = fd["e"]
+                    if fd["name"] in ("prefix", "infix"):
+                        vv = H.strip(v)
+                        # `helper().prefix`: a field of another entry
+                        if vv.get("k") == "field" and vv["name"] in ("prefix", "infix"):
+                            sub = entry(vv["e"], d + 1)
+                            ent[fd["name"]] = sub[vv["name"]] if sub else "?"
+                        else:
+                            ent[fd["name"]] = opt_fn(v)
+                    elif fd["name"] == "precedence":
+                        ent["prec"] = H.last(H.ctor_of(H.strip(v)) or "?")
+                    elif fd["name"] == "associativity":
+                        ent["assoc"] = H.last(H.ctor_of(H.strip(v)) or "?")
+                return ent
+            return None
+        ent = entry(x["r"]) if tok is not None else None
+        if ent is None:
             R.ob("parse-rules-shape", "assignment at unknown shape: %s" % H.render(l["i"]), False,
                  "cannot interpret PARSE_RULES assignment %s" % H.render(x)[:120])
             continue
-        a = r["args"]
-        ent = {"prefix": opt_fn(a[0]), "infix": opt_fn(a[1]), "prec": H.last(H.ctor_of(H.strip(a[2])) or "?"),
-               "assoc": default_assoc if cal == "new" else H.last(H.ctor_of(H.strip(a[3])) or "?"), "line": x.get("line")}
+        ent["line"] = x.get("line")
         t = H.last(tok)
         if t in rules:
             dup.append(t)
